@@ -77,10 +77,11 @@ type scn struct {
 	alts       []map[string][]string // the effective requirement list of the operation
 	global     bool
 	outcome    map[string]int
-	errKind    map[string]int // 0:401 1:403 2:418 3:plain
-	authz      int            // 0 none 1 accept 2 deny plain 3 deny 402
-	broken     int            // 0 ok 1 content-type 2 accept 3 query 4 body
-	flow       int            // 0 full handler 1 accessor sequence
+	granted    map[string][]string // scopes the presented credential of each scheme is good for
+	errKind    map[string]int      // 0:401 1:403 2:418 3:plain
+	authz      int                 // 0 none 1 accept 2 deny plain 3 deny 402
+	broken     int                 // 0 ok 1 content-type 2 accept 3 query 4 body
+	flow       int                 // 0 full handler 1 accessor sequence
 }
 
 func (s *scn) String() string {
@@ -99,19 +100,20 @@ func (s *scn) String() string {
 		if !s.registered[n] {
 			reg = "(unregistered)"
 		}
-		outs = append(outs, fmt.Sprintf("%s%s=%s", n, reg, []string{"n/a", "accept", "accept-nil", "reject"}[s.outcome[n]]))
+		outs = append(outs, fmt.Sprintf("%s%s=%s(granted %v)", n, reg, []string{"n/a", "accept", "accept-nil", "reject"}[s.outcome[n]], s.granted[n]))
 	}
 	return fmt.Sprintf("security=%s global=%v outcomes=[%s] authorizer=%d broken=%d flow=%d", strings.Join(alts, " OR "), s.global, strings.Join(outs, " "), s.authz, s.broken, s.flow)
 }
 
 func generate(t *kernel.Tape) *scn {
-	s := &scn{registered: map[string]bool{}, outcome: map[string]int{}, errKind: map[string]int{}}
+	s := &scn{registered: map[string]bool{}, outcome: map[string]int{}, errKind: map[string]int{}, granted: map[string][]string{}}
 	n := 2 + t.Choose(3, "nschemes")
 	s.schemes = []string{"A", "B", "C", "D"}[:n]
 	for _, name := range s.schemes {
 		s.registered[name] = !t.Bool(8, "unregistered")
 		s.outcome[name] = t.Weighted("outcome", 3, 4, 2, 3)
 		s.errKind[name] = t.Choose(4, "errkind")
+		s.granted[name] = [][]string{{"read", "write"}, {"read"}, {"write"}, nil}[t.Weighted("granted", 3, 1, 1, 1)]
 	}
 	nalt := 1 + t.Choose(3, "nalts")
 	for i := 0; i < nalt; i++ {
@@ -213,9 +215,15 @@ func (prop) Run(t *testing.T, tape *kernel.Tape, sc kernel.Scenario) *kernel.Res
 			continue
 		}
 		n := n
-		u.RegisterAuth(n, &simapi.Auth{W: world, Scheme: n, Outcome: func(int, *http.Request) simapi.AuthOutcome {
+		u.RegisterAuth(n, &simapi.Auth{W: world, Scheme: n, Outcome: func(_ int, _ *http.Request, required []string) simapi.AuthOutcome {
 			switch s.outcome[n] {
 			case oAccept:
+				// the presented credential is good for s.granted[n] only
+				for _, sc := range required {
+					if !containsStr(s.granted[n], sc) {
+						return simapi.AuthOutcome{Applies: true, Err: errors.New(http.StatusForbidden, "scheme %s: scope %s not granted", n, sc)}
+					}
+				}
 				return simapi.AuthOutcome{Applies: true, Principal: "P-" + n}
 			case oNil:
 				return simapi.AuthOutcome{Applies: true}
@@ -335,14 +343,14 @@ func markFaults(env *kernel.Env, s *scn) {
 }
 
 type observed struct {
-	status     int
-	authErr    error // accessor flow: error of Authorize
-	principal  any
-	hasPrinc   bool
-	scopes     []string
-	admitting  []string // Schemes of MatchedRoute.Authenticator
-	bodyReads  int
-	sameReq    bool
+	status    int
+	authErr   error // accessor flow: error of Authorize
+	principal any
+	hasPrinc  bool
+	scopes    []string
+	admitting []string // Schemes of MatchedRoute.Authenticator
+	bodyReads int
+	sameReq   bool
 }
 
 func (o observed) String() string {
@@ -379,7 +387,10 @@ func buildRequest(env *kernel.Env, s *scn) (*http.Request, *kernel.Stream) {
 
 type nopBinder struct{ called *int }
 
-func (b nopBinder) BindRequest(*http.Request, *middleware.MatchedRoute) error { *b.called++; return nil }
+func (b nopBinder) BindRequest(*http.Request, *middleware.MatchedRoute) error {
+	*b.called++
+	return nil
+}
 
 func serve(env *kernel.Env, s *scn, ctx *middleware.Context, handler http.Handler, world *simapi.World) observed {
 	var o observed
@@ -445,9 +456,14 @@ func judge(env *kernel.Env, s *scn, o observed, slot *simapi.Obs, order string) 
 		if len(alt) == 0 {
 			return false
 		}
-		for n := range alt {
+		for n, required := range alt {
 			if !s.registered[n] || s.outcome[n] != oAccept {
 				return false
+			}
+			for _, sc := range required {
+				if !containsStr(s.granted[n], sc) {
+					return false
+				}
 			}
 		}
 		return true
@@ -462,18 +478,52 @@ func judge(env *kernel.Env, s *scn, o observed, slot *simapi.Obs, order string) 
 		}
 	}
 	var errCodes []int
-	for _, n := range slot.AuthCalls {
-		if s.outcome[n] == oReject {
+	for k, n := range slot.AuthCalls {
+		switch s.outcome[n] {
+		case oReject:
 			errCodes = append(errCodes, rejectCode(s.errKind[n]))
+		case oAccept:
+			// a consultation that asked for a scope the credential is not good for was rejected with 403
+			if k < len(slot.AuthCallScopes) {
+				for _, sc := range slot.AuthCallScopes[k] {
+					if !containsStr(s.granted[n], sc) {
+						errCodes = append(errCodes, 403)
+						break
+					}
+				}
+			}
+		}
+	}
+	// the scopes handed to a scheme must be those some alternative declares for it
+	for k, n := range slot.AuthCalls {
+		if k >= len(slot.AuthCallScopes) {
+			break
+		}
+		ok := false
+		for _, a := range s.alts {
+			if req, in := a[n]; in && sameSet(req, slot.AuthCallScopes[k]) {
+				ok = true
+			}
+		}
+		if !ok {
+			env.Violate("C02/wrong-scopes-required", "scheme-asked-for-undeclared-scopes", "order %s: scheme %s was asked for scopes %v, which no alternative declares for it", order, n, slot.AuthCallScopes[k])
+			return
 		}
 	}
 	consultedErr := len(errCodes) > 0
 	// a reject anywhere among registered schemes of the requirement list
 	anyReject := false
 	for _, a := range s.alts {
-		for n := range a {
+		for n, required := range a {
 			if s.registered[n] && s.outcome[n] == oReject {
 				anyReject = true
+			}
+			if s.registered[n] && s.outcome[n] == oAccept {
+				for _, sc := range required {
+					if !containsStr(s.granted[n], sc) {
+						anyReject = true
+					}
+				}
 			}
 		}
 	}
@@ -625,6 +675,15 @@ func cause(s *scn, anon, consultedErr bool) string {
 		return "anonymous-despite-rejection"
 	}
 	return "other"
+}
+
+func containsStr(l []string, x string) bool {
+	for _, v := range l {
+		if v == x {
+			return true
+		}
+	}
+	return false
 }
 
 func containsInt(l []int, x int) bool {
